@@ -52,12 +52,12 @@ def getBool (j : Json) (k : String) (d : Bool) : Bool := (j.getObjValAs? Bool k)
 def getObj (j : Json) (k : String) : Json := (j.getObjVal? k).toOption.getD .null
 
 def getOpts (j : Json) : Opts :=
-  match j.getObjVal? "opts" with
+  optsOfList (match j.getObjVal? "opts" with
   | .ok (.arr a) => a.toList.filterMap fun p =>
       match p with
       | .arr #[.str k, .str v] => some (s2t k, s2t v)
       | _ => none
-  | _ => []
+  | _ => [])
 
 def getStrList (j : Json) (k : String) : List String :=
   match j.getObjVal? k with
@@ -153,6 +153,7 @@ def handleCheck (req : Json) : Json :=
   let want := getStrList c "want"
   let base : List (String × Json) := [("id", id)]
   let implOutcome := getStr impl "outcome"
+  let base := base ++ (if want.contains "C16" then [("valid_spec", jb (C16.validDoc y))] else [])
   match parseDocument y with
   | .error e =>
     Json.mkObj (base ++ [("model_outcome", js "err"), ("model_stage", js "parse"), ("model_err", js (errName e)),
